@@ -7,10 +7,14 @@ finished text is rendered to bytes by the table of harness/cmd/c01/render.go and
 functions for every registered room version; the outputs must be the canonical text the specification
 computed (Canon), applying twice must change nothing, invalid texts must be refused, the enforced variant
 must refuse exactly when MatrixBase.tla says the version enforces and a number is not an integer literal
-within +/-(2^53-1).
+within +/-(2^53-1).  Kinds do not cross (CanonJSON.tla section 3b): the characters of every number literal of the
+families, and the spellings lenient number readers accept (inf / nan words, hex floats, +1, .5, 01, 1_0, blanks),
+are also written BETWEEN QUOTES - as string values and object keys, alone and next to real numbers, plain and with
+an escaped character; the history variable nums (literals written by the EmitNumber action) and the invariants
+KindsDoNotCross / QuotedIsNoNumber state that the enforced verdict depends on the numbers alone.
 
 code -> spec: a seeded driver builds random documents from tokens (depth <= 6, random BMP / astral code
-points, random number literals, token-level damage), logs tokens and observed results; CanonJSON_trace.tla
+points, random number literals, number-like string values and keys, token-level damage), logs tokens and observed results; CanonJSON_trace.tla
 parses the tokens with the specification's reader and re-derives every logged result.  Rejected lines are
 turned into generation records by the same module (TRACE_MODE=explain) and re-executed through the replay
 harness in fresh processes."""
@@ -62,12 +66,15 @@ def run(ctx):
         "texts with a lone surrogate escape or duplicate keys are outside the statement's 'valid' and inside the JSON "
         "grammar: only absence of panics is checked for them",
         "the literal -0 under the enforced variant is not constrained",
+        "a string or object key is a string whatever its characters are: the room version 6 rule applies to values of "
+        "kind number only (NumLook of CanonJSON.tla classifies what a number reader would make of a string; no expected "
+        "result depends on it)",
     ]
     ctx.exhaustive = True
     ctx.notes["rule"] = ("every finished behaviour of the CanonJSON.tla writer for every scenario of the CanonJSON_gen.tla families "
-                         "(str, num, keys, ws, nest, mix, cor) within the tier's budgets, each run for all 16 room versions; "
+                         "(str, num, numstr, keynum, lenient, keys, ws, nest, mix, cor, edge, look, nestkeys, wide, dup) within the tier's budgets, each run for all 16 room versions; "
                          "plus recorded random documents validated by CanonJSON_trace.tla; "
-                         "distinct = distinct (family, text class, corrupt action, inadmissible number, -0) classes")
+                         "distinct = distinct (family, text class, corrupt action, inadmissible number, -0, number look of the strings) classes")
     cfg = "CanonJSON_gen_%s.cfg" % ctx.tier
     ctx.notes["constants"] = cfg
 
@@ -87,7 +94,7 @@ def run(ctx):
         for x in res:  # panics while recording: re-executed through the replay harness
             if not x.get("ok"):
                 probe = {"fam": "trace", "text": x.get("extra") or [], "st": "unclassified", "cor": "none",
-                         "exp": [], "alt": [], "bad": [], "nz": False}
+                         "exp": [], "alt": [], "bad": [], "nz": False, "look": []}
                 body = ctx.replay_and_compare("c01", [probe], args=args, pkg="c01")
                 if body and body[0].get("ok"):
                     raise MachineryError("a panic seen while recording did not reproduce through the replay harness: %s"
